@@ -90,6 +90,9 @@ def run(name, checks):
         print('patch does not apply:', ap.stdout)
         return 2
     res = {}
+    # the evidence files under /verif/evidence must describe the unchanged tree: keep them aside while a changed tree is checked
+    ev = os.path.join(VERIF, 'evidence')
+    saved = {c: open(os.path.join(ev, c + '.json')).read() for c in checks if os.path.exists(os.path.join(ev, c + '.json'))}
     try:
         for c in checks:
             r = sh([os.path.join(VERIF, 'bin', 'check'), c, '--tier', os.environ.get('SEED_TIER', 'quick')], cwd=VERIF, timeout=3600)
@@ -109,6 +112,8 @@ def run(name, checks):
                 print('   ', replay[:400])
     finally:
         sh(['git', '-C', '/repo', 'checkout', '--', '.'])
+        for c, txt in saved.items():
+            open(os.path.join(ev, c + '.json'), 'w').write(txt)
     m.setdefault('check_runs', {})
     m['check_runs'].update(res)
     m['detected_by'] = sorted(c for c, v in m['check_runs'].items() if v.get('detected'))
